@@ -72,10 +72,16 @@ def main():
             h = reg.get_hash(v)
         except Exception as e:  # noqa: BLE001
             h = f"ERR:{type(e).__name__}"
+        try:
+            # the hash under which the backend records the value: RedunBackendDb.record_value computes exactly this
+            vi = reg.get_value(v)
+            hb = vi.get_hash(data=vi.serialize())
+        except Exception as e:  # noqa: BLE001
+            hb = f"ERR:{type(e).__name__}"
         it = None
         if vid == "set:s3:'a','b','c'":
             it = "".join(v)
-        out.append([vid, var, h, it])
+        out.append([vid, var, h, it, hb])
     json.dump(out, sys.stdout)
 
 
